@@ -652,6 +652,16 @@ class Run:
                     self.violation("theorem:" + ",".join(map(str, names)), "proof obligation no longer checks: " + ",".join(map(str, names)), txt, no_input=True)
         if extra_cov:
             self.cov.update(extra_cov)
+        # schema: integer counters, boolean "exhaustive", string rule/explanation/checker_cmd, list samples/trusted_base
+        if "exhaustive" in self.cov and not isinstance(self.cov["exhaustive"], bool):
+            self.cov["exhaustively_enumerated_part"] = self.cov.pop("exhaustive")   # only part of the run is exhaustive
+        for k in ("evaluations", "distinct_nontrivial", "states", "transitions", "traces_validated_against_impl",
+                  "obligations", "discharged", "programs", "disagreements_checked"):
+            if k in self.cov and not (isinstance(self.cov[k], int) and not isinstance(self.cov[k], bool) and self.cov[k] >= 0):
+                self.cov[k + "_note"] = self.cov.pop(k)
+        for k in ("rule", "explanation", "checker_cmd"):
+            if k in self.cov and not isinstance(self.cov[k], str):
+                self.cov[k] = json.dumps(self.cov[k])
         for k, what in self.known_hit.items():
             print("KNOWN-FINDING: property=%s %s" % (self.id, what))
         self.cov["known_findings_matched"] = sorted(self.known_hit)
@@ -667,8 +677,11 @@ class Run:
         ev = {"property_id": self.id, "tier": self.tier, "seed": self.seed, "level": level,
               "coverage": self.cov, "assumptions": self.assumptions,
               "wall_s": round(time.time() - self.t0, 2), "violations": len(self.violations)}
-        os.makedirs(EVID, exist_ok=True)
-        with open(os.path.join(EVID, "%s.json" % self.id), "w") as f:
+        # evidence/<id>.json only ever describes a run against /repo itself; a run against another source root
+        # (seeded change, mutant: HWLOC_VERIF_REPO) writes its evidence under build/
+        evdir = EVID if not _ALT else os.path.join(BUILD, "evidence" + _ALT)
+        os.makedirs(evdir, exist_ok=True)
+        with open(os.path.join(evdir, "%s.json" % self.id), "w") as f:
             json.dump(ev, f, indent=1, default=str)
         print("%s: %s (%d evaluations, %d distinct non-trivial, %.1fs)" % (
             self.id, "HOLDS" if rc == 0 else "VIOLATED", self.cov["evaluations"],
